@@ -175,7 +175,9 @@ Proof.
   - destruct (find_include fs (n, dirname (e_file e), false) p) as [p1 res] eqn:E.
     destruct (find_include_inv _ _ _ _ Hp E) as [Hp1 Hr].
     destruct res as [f|].
-    + destruct (run_file_M fs fuel f p1) as [p2|] eqn:R; [|discriminate].
+    + destruct (mem_path f (once p1));
+        [apply (IH p1 p'); [intros m Hm; apply Hsub; right; exact Hm|exact Hp1|exact H]|].
+      destruct (run_file_M fs fuel f p1) as [p2|] eqn:R; [|discriminate].
       apply (IH p2 p'); [intros m Hm; apply Hsub; right; exact Hm| |exact H].
       eapply run_file_M_inv; [|exact Hp1|exact R].
       eapply reach_forced; [apply Hsub; left; reflexivity|symmetry; exact Hr].
